@@ -159,6 +159,11 @@ def run_c17(ctx):
         for b in (1, 7, 64):
             nsock = 5
             rounds = [srvmod.gen_round(r, nsock, r.choice([1, 5, 20, 70]), None) for _ in range(3)]
+            # every class of unanswerable datagram at least once per session (wrong SRV, unsupported versions,
+            # bad framing, ...): what is not answered must still be counted, whatever the reason
+            every = [(r.randrange(nsock), srvmod.junk(r, None, k)) for k in range(srvmod.JUNK_CLASSES)]
+            r.shuffle(every)
+            rounds.append(every)
             eng.add((b, 0, 3, cs), rounds, nsock)
     eng.run()
     eng.judge()
